@@ -52,6 +52,10 @@ pub struct C14Cfg {
     /// holds (and one fewer), so that the deepest reorganisation the window allows is exercised
     #[serde(default)]
     pub deep: bool,
+    /// carry the C11 durability monitor: after every transition a signer restored from a copy of
+    /// the store must have the same tip and channel monitors as the live one
+    #[serde(default)]
+    pub monitors: bool,
 }
 
 #[derive(Clone, Debug, PartialEq, Eq, Hash, Serialize, Deserialize)]
@@ -307,7 +311,7 @@ impl Model for C14Model {
             self.cfg.max_block,
             if self.cfg.restart { ",restart" } else { "" },
             if self.cfg.deep { ",reorg-window-macros" } else { "" }
-        )
+        ) + if self.cfg.monitors { ",monitors" } else { "" }
     }
 
     fn init(&self) -> C14State {
@@ -453,6 +457,9 @@ impl Model for C14Model {
             }
             Outcome::Ok(_) => {}
         }
+        if check && self.cfg.monitors && !matches!(op, Op::Restart) {
+            crate::monitors::durability_monitor(s.w(), &kind, "ok", vios);
+        }
         if check {
             // differential oracle: a fresh signer that connects only the surviving chain
             let names = s.names.clone();
@@ -493,7 +500,7 @@ impl Model for C14Model {
     }
 
     fn prune_after(&self, v: &Vio) -> bool {
-        v.prop == "C14"
+        v.prop == "C14" || (self.cfg.monitors && v.prop == "C11")
     }
 }
 
@@ -501,20 +508,20 @@ pub fn configs(tier: Tier) -> Vec<C14Cfg> {
     let mut v = vec![];
     match tier {
         Tier::Quick => {
-            v.push(C14Cfg { scen: Scen::Funding, anchors: false, delivery: Delivery::Compact, max_chain: 3, max_block: 2, restart: false, deep: false });
-            v.push(C14Cfg { scen: Scen::HolderClose, anchors: false, delivery: Delivery::Compact, max_chain: 2, max_block: 2, restart: false, deep: false });
-            v.push(C14Cfg { scen: Scen::CpClose, anchors: true, delivery: Delivery::Streamed, max_chain: 2, max_block: 2, restart: false, deep: false });
-            v.push(C14Cfg { scen: Scen::Funding, anchors: false, delivery: Delivery::Compact, max_chain: 1, max_block: 1, restart: false, deep: true });
+            v.push(C14Cfg { scen: Scen::Funding, anchors: false, delivery: Delivery::Compact, max_chain: 3, max_block: 2, restart: false, deep: false, monitors: false });
+            v.push(C14Cfg { scen: Scen::HolderClose, anchors: false, delivery: Delivery::Compact, max_chain: 2, max_block: 2, restart: false, deep: false, monitors: false });
+            v.push(C14Cfg { scen: Scen::CpClose, anchors: true, delivery: Delivery::Streamed, max_chain: 2, max_block: 2, restart: false, deep: false, monitors: false });
+            v.push(C14Cfg { scen: Scen::Funding, anchors: false, delivery: Delivery::Compact, max_chain: 1, max_block: 1, restart: false, deep: true, monitors: false });
         }
         Tier::Thorough => {
             for delivery in [Delivery::Compact, Delivery::Streamed] {
-                v.push(C14Cfg { scen: Scen::Funding, anchors: false, delivery, max_chain: 4, max_block: 3, restart: true, deep: false });
+                v.push(C14Cfg { scen: Scen::Funding, anchors: false, delivery, max_chain: 4, max_block: 3, restart: true, deep: false, monitors: false });
                 for anchors in [false, true] {
-                    v.push(C14Cfg { scen: Scen::HolderClose, anchors, delivery, max_chain: 3, max_block: 3, restart: false, deep: false });
-                    v.push(C14Cfg { scen: Scen::CpClose, anchors, delivery, max_chain: 3, max_block: 3, restart: false, deep: false });
+                    v.push(C14Cfg { scen: Scen::HolderClose, anchors, delivery, max_chain: 3, max_block: 3, restart: false, deep: false, monitors: false });
+                    v.push(C14Cfg { scen: Scen::CpClose, anchors, delivery, max_chain: 3, max_block: 3, restart: false, deep: false, monitors: false });
                 }
-                v.push(C14Cfg { scen: Scen::Full, anchors: false, delivery, max_chain: 3, max_block: 2, restart: false, deep: false });
-                v.push(C14Cfg { scen: Scen::Funding, anchors: false, delivery, max_chain: 2, max_block: 2, restart: true, deep: true });
+                v.push(C14Cfg { scen: Scen::Full, anchors: false, delivery, max_chain: 3, max_block: 2, restart: false, deep: false, monitors: false });
+                v.push(C14Cfg { scen: Scen::Funding, anchors: false, delivery, max_chain: 2, max_block: 2, restart: true, deep: true, monitors: false });
             }
         }
     }
@@ -529,6 +536,34 @@ pub struct ChainRun {
 
 pub fn explore(tier: Tier, wall_s: f64) -> ChainRun {
     let cfgs = configs(tier);
+    let mut stats = BfsStats { closed: true, ..Default::default() };
+    let mut found = vec![];
+    let mut models = vec![];
+    let per = wall_s / cfgs.len() as f64;
+    for cfg in cfgs {
+        let m = C14Model { cfg };
+        let lim = Limits { max_depth: 12, max_states: 3_000_000, wall_s: per };
+        let st = bfs(&m, &lim, &mut found);
+        models.push(format!("{}: states={} transitions={} closed={} depth={}", m.name(), st.states, st.transitions, st.closed, st.max_depth));
+        merge_stats(&mut stats, &st);
+    }
+    ChainRun { stats, found, models }
+}
+
+/// the same search with the C11 durability monitor after every transition (fewer configurations)
+pub fn explore_monitored(tier: Tier, wall_s: f64) -> ChainRun {
+    let mut cfgs = vec![];
+    match tier {
+        Tier::Quick => {
+            cfgs.push(C14Cfg { scen: Scen::HolderClose, anchors: false, delivery: Delivery::Compact, max_chain: 2, max_block: 2, restart: false, deep: false, monitors: true });
+        }
+        Tier::Thorough => {
+            cfgs.push(C14Cfg { scen: Scen::Funding, anchors: false, delivery: Delivery::Compact, max_chain: 3, max_block: 2, restart: false, deep: false, monitors: true });
+            cfgs.push(C14Cfg { scen: Scen::HolderClose, anchors: false, delivery: Delivery::Compact, max_chain: 3, max_block: 2, restart: false, deep: false, monitors: true });
+            cfgs.push(C14Cfg { scen: Scen::CpClose, anchors: true, delivery: Delivery::Streamed, max_chain: 3, max_block: 2, restart: false, deep: false, monitors: true });
+            cfgs.push(C14Cfg { scen: Scen::Full, anchors: false, delivery: Delivery::Compact, max_chain: 2, max_block: 2, restart: false, deep: false, monitors: true });
+        }
+    }
     let mut stats = BfsStats { closed: true, ..Default::default() };
     let mut found = vec![];
     let mut models = vec![];
